@@ -96,7 +96,7 @@ int sm4_cfb_encrypt_update(SM4_CFB_CTX *ctx,
 		return -1;
 	}
 	if (!out) {
-		*outlen = 16 * ((inlen + 15)/16);
+		*outlen = ((ctx->block_nbytes + inlen) / ctx->sbytes) * ctx->sbytes;
 		return 1;
 	}
 	if (ctx->block_nbytes >= ctx->sbytes) {
@@ -183,7 +183,7 @@ int sm4_cfb_decrypt_update(SM4_CFB_CTX *ctx,
 		return -1;
 	}
 	if (!out) {
-		*outlen = 16 * ((inlen + 15)/16);
+		*outlen = ((ctx->block_nbytes + inlen) / ctx->sbytes) * ctx->sbytes;
 		return 1;
 	}
 	if (ctx->block_nbytes >= ctx->sbytes) {
